@@ -40,8 +40,8 @@ def gen_cases(seed, tier, n):
         if i % 3 == 1:
             tracegen.relabel_ranks(c)      # a subset of a job: rank ids are not 0..n-1, and not listed in order
         if i % 10 == 7:
-            fw.set_quarter_us(c)           # quarter-microsecond resolution (framework.resolution); series only, no files
-            c["params"]["files"] = False
+            fw.set_quarter_us(c)           # quarter-microsecond resolution (framework.resolution); files in every second such case
+            c["params"]["files"] = i % 20 == 7
         out.append(c)
     return out
 
@@ -98,10 +98,15 @@ def _run_impl(case, d):
                     files[r] = {"missing": True}
                     continue
                 doc = _read_any(got)
-                n_src = len(case["ranks"][r]["events"])
-                files[r] = {"tail": doc["traceEvents"][n_src:], "head_ok": doc["traceEvents"][:n_src] == case["ranks"][r]["events"]}
+                src_events = (fw.quartered(case) if k != 1 else case)["ranks"][r]["events"]
+                n_src = len(src_events)
+                tail = doc["traceEvents"][n_src:]
+                if k != 1:
+                    # counter events of a quarter-microsecond case are compared at the case's integer scale
+                    tail = [dict(e, ts=fw.as_int(e["ts"] * k)) if isinstance(e, dict) and "ts" in e else e for e in tail]
+                files[r] = {"tail": tail, "head_ok": doc["traceEvents"][:n_src] == src_events}
             out["files"] = files
-            out["min_ts"] = int(ta.t.min_ts)
+            out["min_ts"] = int(ta.t.min_ts) if k == 1 else fw.as_int(ta.t.min_ts * k)
         except Exception as e:
             out["files_error"] = type(e).__name__ + ": " + str(e)[:200]
     return {"frames": frames, "out": out, "frames_altered": fw.frames_altered(case, ta, frames, sym)}
